@@ -136,7 +136,14 @@ func cmdConc(args []string) int {
 			own := func(i int) string { return fmt.Sprintf("c%d-%d", c, i%5) }
 			for n := 0; n < *nOps; n++ {
 				it := items[rng.Intn(len(items))]
-				switch rng.Intn(14) {
+				switch rng.Intn(16) {
+				case 14:
+					// links between the two shared items in BOTH directions by different clients (lock order across shards)
+					a, b := items[c%2], items[(c+1)%2]
+					call("VLink", func() (bool, map[string]any) { return e.VLink(ix, a, b, "peer", "", 1, nil) == nil, nil }, nil)
+				case 15:
+					a, b := items[(c+1)%2], items[c%2]
+					call("VLink", func() (bool, map[string]any) { return e.VLink(ix, a, b, "peer", "peer_of", 0.5, nil) == nil, nil }, nil)
 				case 0, 1, 2:
 					call("VReinforce", func() (bool, map[string]any) { return e.VReinforce(ix, []string{it}) == nil, nil }, map[string]any{"item": it})
 				case 3, 4:
